@@ -144,6 +144,8 @@ def build_args(cfg, call, S):
         return out
     if k == "level":
         kw["select"] = {"mesh": {"level": level_fn()}}
+        if call.get("partlevel"):
+            kw["select"]["part"] = {"level": (lambda l: l <= call["partlevel"])}
     elif k == "value":
         kw["select"] = {"mesh": {call["var"]: value_array_fn(cfg, call)}}
     elif k == "value+level":
@@ -849,7 +851,7 @@ def run_sink_scenario(args):
                                 continue
                             ds = osyris.RamsesDataset(cfg["nout"], path=d).load(sortby={"sink": sc["exp"]["cols"][0]["name"]})
                         else:
-                            ds = osyris.RamsesDataset(cfg["nout"], path=d).load(select=sel)
+                            ds = osyris.RamsesDataset(-1 if idx % 2 else cfg["nout"], path=d).load(select=sel)
                     if vname == "csv":
                         detail = check_sink(cfg, sc, ds)
                     elif vname == "header-only":
